@@ -73,3 +73,74 @@ def eval_mod(t, env, I=None, path=None, depth=0):
             return (eval_mod(t[2], env, I, path, depth + 1) << c[1]) % MOD
         raise Undecided("binop " + op)
     raise Undecided("leaf %s" % (A.show(t)[:40],))
+
+
+def eval_k(t, env, k_bits, I=None, path=None, depth=0):
+    """t modulo 2^k_bits with the leaves' residues given in env; narrowing and widening casts are followed exactly (a value
+    truncated to n < k_bits bits is known completely), so a sign- or zero-extension of a narrow immediate shows in the
+    bits above it. Raises Undecided outside the domain (right shifts, divisions, undecided comparisons)."""
+    mod = 1 << k_bits
+    if depth > 60:
+        raise Undecided("depth")
+    k = t[0]
+    if k == "int":
+        return t[1] % mod
+    if t in env:
+        return env[t] % mod
+    if k == "w":
+        return eval_k(t[1], env, k_bits, I, path, depth + 1)
+    if k == "cast":
+        _, a, fb, fs, tb = t
+        x = eval_k(a, env, k_bits, I, path, depth + 1)
+        if isinstance(fb, int) and fb < k_bits:
+            x %= 1 << fb
+            if fs and isinstance(tb, int) and tb > fb and (x >> (fb - 1)) & 1:
+                x |= (mod - 1) & ~((1 << fb) - 1)
+        if isinstance(tb, int) and tb < k_bits:
+            x %= 1 << tb
+        return x % mod
+    if k == "un":
+        x = eval_k(t[2], env, k_bits, I, path, depth + 1)
+        if t[1] == "Not":
+            if A.width_of(t[2]) == 8 and t[2][0] == "bin" and t[2][1] in A.CMP_OPS:
+                return (1 - x) % mod
+            w = A.width_of(t[2])
+            r = (~x) % mod
+            return r % (1 << w) if w and w < k_bits else r
+        if t[1] == "Neg":
+            w = A.width_of(t[2])
+            r = (-x) % mod
+            return r % (1 << w) if w and w < k_bits else r
+        raise Undecided("unop " + t[1])
+    if k == "bin":
+        op = t[1]
+        if op in A.CMP_OPS:
+            if I is not None and path is not None:
+                d = I.decide(path, t)
+                if d is not None:
+                    return d % mod
+            raise Undecided("comparison")
+        if op in ("Add", "Sub", "Mul", "BitAnd", "BitOr", "BitXor", "AddUnchecked", "SubUnchecked", "MulUnchecked"):
+            a = eval_k(t[2], env, k_bits, I, path, depth + 1)
+            b = eval_k(t[3], env, k_bits, I, path, depth + 1)
+            w = t[4] if len(t) > 4 and isinstance(t[4], int) else None
+            if op.startswith("Add"):
+                r = a + b
+            elif op.startswith("Sub"):
+                r = a - b
+            elif op.startswith("Mul"):
+                r = a * b
+            elif op == "BitAnd":
+                r = a & b
+            elif op == "BitOr":
+                r = a | b
+            else:
+                r = a ^ b
+            r %= mod
+            return r % (1 << w) if w and w < k_bits else r
+        if op in ("Shl", "ShlUnchecked") and A.is_int(t[3]):
+            w = t[4] if len(t) > 4 and isinstance(t[4], int) else None
+            r = (eval_k(t[2], env, k_bits, I, path, depth + 1) << t[3][1]) % mod
+            return r % (1 << w) if w and w < k_bits else r
+        raise Undecided("binop " + op)
+    raise Undecided("leaf %s" % (A.show(t)[:40],))
